@@ -39,7 +39,44 @@ PARSE_LEAVES = ['unzigzag32_spec', 'unzigzag64_spec', 'parse_uint32_spec', 'pars
                 'parse_tag_and_wiretype_ok', 'scan_length_prefixed_data_spec']
 TABLE_LEAVES = ['get_type_min_size_spec', 'sizeof_elt_in_repeated_array_spec', 'is_packable_type_spec']
 
+GEN_FINDINGS = {'C12': ('F17', 'F12b'), 'C15': ('F12b',)}
+
 PROPS = {
+    'C12': dict(
+        title='fresh messages hold the declared defaults; presence decides what is written',
+        modules=['Pbc.Props.C12'],
+        theorems=['Pbc.Props.C12.initMsg_slots', 'Pbc.Props.C12.init_repeated_empty', 'Pbc.Props.C12.init_oneof_unset',
+                  'Pbc.Props.C12.init_singular_default', 'Pbc.Props.C12.genField_default', 'Pbc.Props.C12.absent_optional_not_written',
+                  'Pbc.Props.C12.absent_pointer_not_written', 'Pbc.Props.C12.present_optional_written',
+                  'Pbc.Props.C12.implicit_omitted_iff_zero', 'Pbc.Props.C12.unselected_oneof_not_written',
+                  'Pbc.Props.C12.empty_repeated_not_written', 'Pbc.Props.C12.init_slot_not_written', 'Pbc.Props.C12.unpack_empty'],
+        refine=[], cases=[], oracle='gen', gen=(24, 160),
+    ),
+    'C13': dict(
+        title='generated descriptors and structs mirror the .proto exactly',
+        modules=['Pbc.Props.C13', 'Pbc.Props.C14'],
+        theorems=['Pbc.Props.C13.fields_perm', 'Pbc.Props.C13.fields_sorted', 'Pbc.Props.C13.fields_strict',
+                  'Pbc.Props.C13.sortByName_sorted', 'Pbc.Props.C13.nameLookup_sortByName', 'Pbc.Props.C13.field_by_name',
+                  'Pbc.Props.C14.rangeLookup_spec', 'Pbc.Props.C14.nameLookup_spec'],
+        refine=[], cases=[], oracle='gen', gen=(24, 160),
+    ),
+    'C15': dict(
+        title='the generator handles every valid schema and its output always compiles',
+        modules=['Pbc.Props.C15'],
+        theorems=['Pbc.Props.C15.keywords_no_trailing_underscore', 'Pbc.Props.C15.fieldName_not_keyword', 'Pbc.Props.C15.fieldName_shape',
+                  'Pbc.Props.C15.camelToLowerAux_ident', 'Pbc.Props.C15.effInit_own', 'Pbc.Props.C15.effInit_inherit',
+                  'Pbc.Props.C15.effInit_default', 'Pbc.Props.C15.effPack_default_top', 'Pbc.Props.C15.effPack_default_nested',
+                  'Pbc.Props.C15.effPack_file_true', 'Pbc.Props.C15.effPack_own'],
+        refine=[], cases=[], oracle='gen', gen=(24, 160),
+    ),
+    'C20': dict(
+        title='generated service stubs dispatch to the right handler',
+        modules=['Pbc.Props.C20'],
+        theorems=['Pbc.Props.C20.stub_dispatch', 'Pbc.Props.C20.stub_runs_slot', 'Pbc.Props.C20.stub_injective',
+                  'Pbc.Props.C20.stub_out_of_range', 'Pbc.Props.C20.generatedInit_cleared', 'Pbc.Props.C20.destroy_invokes_callback',
+                  'Pbc.Props.C20.method_by_name', 'Pbc.Props.C20.stub_index_is_loop_counter'],
+        refine=[], cases=[], oracle='gen', gen=(24, 160),
+    ),
     'C02': dict(
         title='size, pack and pack_to_buffer agree; pack never overruns',
         modules=['Pbc.Props.C02'],
@@ -66,7 +103,7 @@ PROPS = {
         theorems=['Pbc.Props.C02.packMsg_length', 'Pbc.Lemmas.parseScalar_scalarBytes', 'Pbc.Lemmas.scanKey_keyBytes',
                   'Pbc.Lemmas.scanLen_lenPrefixed', 'Pbc.Lemmas.scalarBytes_scan_varint'],
         refine=PACK_LEAVES + SIZE_LEAVES + TABLE_LEAVES,
-        cases=[('enc', 300, 5000, [])],
+        cases=[('enc', 300, 5000, [])], gen=(8, 48),
         oracle='c03', ref=True,
     ),
     'C04': dict(
@@ -242,7 +279,8 @@ def ensure_build():
     try:
         src_hash = tree_hash([os.path.join(REPO, 'protobuf-c', 'protobuf-c.c'), os.path.join(REPO, 'protobuf-c', 'protobuf-c.h'),
                               os.path.join(VERIF, 'harness'), os.path.join(VERIF, 'tools', 'c2lean.py'),
-                              os.path.join(VERIF, 'tools', 'shim')])
+                              os.path.join(VERIF, 'tools', 'shim'), os.path.join(REPO, 'protoc-gen-c'),
+                              os.path.join(REPO, 'protobuf-c', 'protobuf-c.proto'), os.path.join(VERIF, 'tools', 'extract_genfacts.py')])
         lean_hash = tree_hash([os.path.join(LEAN, 'Pbc'), os.path.join(LEAN, 'Drv'), os.path.join(LEAN, 'lakefile.toml'), os.path.join(LEAN, 'Pbc.lean')])
         state_file = os.path.join(BUILD, 'state.json')
         state = {}
@@ -295,6 +333,13 @@ def ensure_build():
             log('extracting source facts')
             r = run([sys.executable, os.path.join(HERE, 'extract_facts.py')])
             state['facts_out'] = (r.stdout + r.stderr)[-500:]
+            r = run([sys.executable, os.path.join(HERE, 'extract_genfacts.py')])
+            state['genfacts_out'] = (r.stdout + r.stderr)[-500:]
+            log('building protoc-gen-c from /repo')
+            import genpipe
+            plug, perr = genpipe.build_plugin()
+            state['plugin_rc'] = 0 if plug else 1
+            state['plugin_err'] = perr[-2000:]
             log('building reference harness (libprotobuf)')
             try:
                 flags = subprocess.check_output(['pkg-config', '--cflags', '--libs', 'protobuf'], text=True).split()
@@ -562,12 +607,12 @@ def main():
     cov = {'evaluations': 0, 'distinct_nontrivial': 0, 'samples': [], 'per_kind': {}}
     distinct = set()
     corr_broken = []
-    oracle = getattr(oracles, 'oracle_' + P['oracle'])
+    oracle = getattr(oracles, 'oracle_' + P['oracle'], None)
     harness_ok = os.path.exists(os.path.join(BUILD, 'harness_asan')) and state.get('drv_rc', 1) == 0
     if not harness_ok:
         corr_broken.append({'what': 'harness or driver did not build', 'detail': state.get('harness_err', '')[-500:] + state.get('drv_err', '')[-500:]})
     runs = []
-    if harness_ok:
+    if harness_ok and oracle is not None:
         if replay:
             rp = json.load(open(replay))
             case = os.path.join(work, 'replay.case')
@@ -618,6 +663,66 @@ def main():
                                 'schema': schema_block_for(res['lines'], idx), 'ops': [res['lines'][idx]],
                                 'impl_output': (res['impl'][idx] if idx < len(res['impl']) else None),
                                 'model_output': (res['model'][idx] if idx < len(res['model']) else None)})
+    # ---- generator phase (C12, C13, C15, C20): real plugin output vs the Lean generator model -------------
+    if P.get('gen') and harness_ok:
+        import gencheck
+        if state.get('plugin_rc', 1) != 0:
+            corr_broken.append({'what': 'protoc-gen-c did not build from /repo', 'detail': state.get('plugin_err', '')[-800:]})
+            violations.append(('the code generator does not build', {'property': pid, 'kind': 'generator', 'what': 'the code generator does not build',
+                               'label': 'plugin', 'ops': [], 'schema': [], 'detail': state.get('plugin_err', '')[-800:]}))
+        else:
+            n = P['gen'][0] if tier == 'quick' else P['gen'][1]
+            only = None
+            fnd = GEN_FINDINGS.get(pid, ())
+            if replay:
+                rp = json.load(open(replay))
+                if rp.get('finding'):
+                    fnd, n = (rp['finding'],), 0
+                elif rp.get('gen_seed'):
+                    only, fnd = tuple(rp['gen_seed']), ()
+                elif rp.get('gen_corpus'):
+                    fnd, n = (), 0
+            gruns = gencheck.run_all(seed, n, os.path.join(work, 'gen'), only=only, findings=fnd)
+            gstat = {'file_sets': len(gruns), 'ops': 0, 'model_vs_generated_differences': 0, 'stages_failed': 0,
+                     'messages': 0, 'enums': 0, 'services': 0, 'nested': 0, 'with_import': 0, 'code_size': 0, 'options_used': 0}
+            for gr in gruns:
+                ev_ = gencheck.evaluate(pid, gr)
+                PF = gr['P']
+                gstat['ops'] += ev_['nops']
+                gstat['messages'] += len(PF.sch.msgs); gstat['enums'] += len(PF.enums); gstat['services'] += len(PF.services)
+                gstat['nested'] += sum(1 for v in PF.parent.values() if v is not None)
+                gstat['with_import'] += 1 if 'dep.proto' in gr['proto'] else 0
+                gstat['code_size'] += 1 if PF.code_size(0) else 0
+                gstat['options_used'] += len(PF.file_opts[0]) + sum(len(v) for v in PF.msg_opts.values()) + len(PF.fopt)
+                cov['evaluations'] += ev_['nops']
+                for k in ev_['distinct']:
+                    distinct.add(('gen',) + k)
+                gs = gr['label'].split('/')
+                if gr['label'].startswith('finding:'):
+                    ident = {'finding': gr['label'].split(':', 1)[1]}
+                elif gr['label'].startswith('corpus:'):
+                    ident = {'gen_corpus': gr['label'].split(':', 1)[1]}
+                else:
+                    ident = {'gen_seed': [int(gs[1]), int(gs[2])]}
+                for idx, what in ev_['failures'][:4]:
+                    gstat['stages_failed'] += 1 if idx is None else 0
+                    payload = dict(ident, property=pid, kind='generator', what=what, seed=seed, label=gr['label'], proto=gr['proto'], schema=[],
+                                   ops=[gr['lines'][idx]] if idx is not None else [],
+                                   impl_output=gr['impl'][idx] if idx is not None and idx < len(gr['impl']) else None,
+                                   model_output=gr['model'][idx] if idx is not None and idx < len(gr['model']) else None)
+                    violations.append((what, payload))
+                if not gr['label'].startswith('finding:'):
+                    gstat['model_vs_generated_differences'] += len(ev_['diffs'])
+                    for idx, op in ev_['diffs'][:3]:
+                        corr_broken.append(dict(ident, what='Lean generator/runtime model and generated code disagree (%s)' % op, label=gr['label'],
+                                                proto=gr['proto'], schema=[], ops=[gr['lines'][idx]],
+                                                impl_output=gr['impl'][idx] if idx < len(gr['impl']) else None,
+                                                model_output=gr['model'][idx + 1 if op == 'initdump' else idx] if idx < len(gr['model']) else None))
+                if not cov['samples'] and gr['lines']:
+                    k0 = next((i for i, l in enumerate(gr['lines']) if l.split(' ', 1)[0] in gencheck.OPS[pid]), None)
+                    if k0 is not None:
+                        cov['samples'] = [{'op': gr['lines'][k0][:300], 'impl': gr['impl'][k0][:300] if k0 < len(gr['impl']) else ''}]
+            cov['per_kind']['generator'] = gstat
     # ---- build-variant comparison (C16) ------------------------------------------------------------
     if P.get('variants') and harness_ok:
         env = dict(os.environ, ASAN_OPTIONS='detect_leaks=1', UBSAN_OPTIONS='print_stacktrace=0')
